@@ -1,5 +1,6 @@
 """Shared workbench for the declaration-driven checks: generate a family, define its variants,
 instrument the generic variant, run the real library and the model side by side."""
+import re
 import contextlib
 import signal
 import sys
@@ -187,6 +188,23 @@ class Bench:
         return res, roots, self.rec.fail_node()
 
 
+_FIELD_NAME = re.compile(r"^f\d+$")
+
+
+def underscore_names(x):
+    """The same family with every field called _fN instead of fN (a leading underscore is a legal attribute name for a user field;
+    the library's own pseudo fields start with one too).  Field names occur in the spec only as whole strings."""
+    if isinstance(x, dict):
+        return {underscore_names(k): underscore_names(v) for k, v in x.items()}
+    if isinstance(x, list):
+        return [underscore_names(v) for v in x]
+    if isinstance(x, tuple):
+        return tuple(underscore_names(v) for v in x)
+    if isinstance(x, str) and _FIELD_NAME.match(x):
+        return "_" + x
+    return x
+
+
 def try_family(rng, profile, variants, directory, instrument=("g",), max_tries=5):
     """Generate + define a family. A family that cannot be defined is returned as (None, fam, exc)."""
     fam = spec.gen_family(rng, profile)
@@ -196,6 +214,8 @@ def try_family(rng, profile, variants, directory, instrument=("g",), max_tries=5
         fam = spec.gen_family(rng, profile)
         tries += 1
     local = bool(profile and profile.get("p_local_classes", 0) > rng.random())
+    if profile and profile.get("p_underscore_names", 0) > 0 and profile["p_underscore_names"] > rng.random():
+        fam = underscore_names(fam)
     try:
         b = Bench(fam, variants, directory, instrument, local=local)
     except RecursionError:
